@@ -277,6 +277,7 @@ def check_c12(ck, tier, replay=None):
             q = [(list(it.pc), [z3.Or(o[0] != ys[0], o[n - 1] != ys[n - 1])]) for it, o in res]
             q += [(list(it.pc) + [ys[i] == a * i + b for i in range(n)], [z3.Or([o[i] != ys[i] for i in range(n)])]) for it, o in res]
             agg_prove(ck, 'Table::Smooth(%d) on %d points keeps both end points and leaves straight-line data unchanged' % (k, n), q, TO, found, 'smooth')
+    fit_clause(ck, mod, tier, parsed, TO, found)
     found_tab = []
     table_io(ck, tier, found_tab)
     table_violations(ck, found_tab)
@@ -285,6 +286,82 @@ def check_c12(ck, tier, replay=None):
         rep = common.write_replay('C12', name, {}, {'clause': name, 'model': mdl, 'tag': tag})
         ok, why = native_replay(tag, mdl)
         ck.violation('C12 ' + name.split(' (')[0][:70] if not tag.endswith('periodic') else 'C12 ' + tag, name + ' ; ' + why, rep, reproduced=ok)
+
+# ---------------- CubicSpline::Fit: the least-squares problem handed to the constrained solver is the right one ----------------
+def fit_clause(ck, mod, tier, parsed, TO, found):
+    """The constrained QR solver (two Eigen factorizations) is the environment boundary, by its contract: it returns
+    argmin |A u - b| subject to B u = 0.  What VOTCA contributes is the assembly: decided here for symbolic abscissae and
+    ordinates.  (A u)_i must be the value at x_i of the spline with state u = (f, f''), B u = 0 must say 'natural ends and
+    continuous first derivative at every interior knot', b must be the data, and the solver's result must be stored."""
+    from algz import Algebra
+    names = [n for n in list(mod.funcs) + list(mod.decls) if 'linalg_constrained_qrsolve' in n]
+    if not names: ck.inconc('Fit: linalg_constrained_qrsolve not found in the module'); return
+    cap = {}
+    def m_qr(it, a):
+        out, Am, bv, Cm = a
+        def mat(p):
+            d = it.load(Ptr(p.obj, p.off), 8); r = symx.sgn64(it.load(Ptr(p.obj, p.off + 8), 8)); c = symx.sgn64(it.load(Ptr(p.obj, p.off + 16), 8))
+            return [[it.load(Ptr(d.obj, d.off + 8 * (i + r * j)), 8, llir.FloatTy(64)) for j in range(c)] for i in range(r)]
+        def vecr(p):
+            d = it.load(Ptr(p.obj, p.off), 8); n = symx.sgn64(it.load(Ptr(p.obj, p.off + 8), 8)); return [it.load(Ptr(d.obj, d.off + 8 * i), 8, llir.FloatTy(64)) for i in range(n)]
+        cap['A'] = mat(Am); cap['b'] = vecr(bv); cap['B'] = mat(Cm); cap['calls'] = cap.get('calls', 0) + 1
+        n = len(cap['A'][0]) if cap['A'] else 0; sol = [z3.Real('u%d' % i) for i in range(n)]
+        buf = alloc_doubles(it, 'sol', sol); it.store(Ptr(out.obj, out.off), buf, 8); it.store(Ptr(out.obj, out.off + 8), n, 8)
+        return None
+    def Z(v): return v if z3.is_expr(v) else z3.RealVal(v)
+    ND = 2 if tier == 'quick' else 3
+    for g in ([GRIDS[3][1], GRIDS[4][1]] if tier == 'quick' else [GRIDS[3][1], GRIDS[4][0], GRIDS[4][1], GRIDS[5][1]]):
+        n = len(g); xs = [z3.Real('x%d' % i) for i in range(ND)]; ys = [z3.Real('y%d' % i) for i in range(ND)]
+        u = [z3.Real('u%d' % i) for i in range(2 * n)]
+        label = 'CubicSpline::Fit (grid %s, %d data points)' % ([str(v) for v in g], ND)
+        def build(it):
+            cap.clear()
+            gp = alloc_doubles(it, 'g', g); px = alloc_doubles(it, 'x', xs); py = alloc_doubles(it, 'y', ys); f = alloc_doubles(it, 'f', [F(0)] * n); f2 = alloc_doubles(it, 'f2', [F(0)] * n)
+            rc = symx.sgn64(it.call('@h_fit', [gp, n, px, py, ND, 0, f, f2]))
+            return rc, read_doubles(it, f, n), read_doubles(it, f2, n), dict(cap)
+        res, st = run(mod, 'fit', build, parsed, extra_models={nm: m_qr for nm in names}, assume=[z3.And(x >= g[0], x <= g[-1]) for x in xs]); ck.stubs |= st['models_used'] | {'linalg_constrained_qrsolve(A, b, B) -> fresh solution vector u (contract: argmin |A u - b| s.t. B u = 0)'}
+        ck.add_witness('%s: %d interval combinations' % (label, len(res)), len(res) >= 2)
+        qA = []; qS = []; Bref = None
+        for it_, (rc, f, f2, c) in res:
+            pc = list(it_.pc)
+            if rc != 0 or c.get('calls') != 1: qS.append((pc, [])); continue
+            qS.append((pc, [z3.Or([Z(f[k]) != u[k] for k in range(n)] + [Z(f2[k]) != u[n + k] for k in range(n)] + [Z(c['b'][i]) != ys[i] for i in range(ND)] + [z3.BoolVal(len(c['A']) != ND or len(c['B']) != n)])]))
+            Bref = c['B']
+            for i in range(ND):
+                # the spline value at x_i from the state u, by the real Calculate on that state
+                def bs(it, i=i):
+                    px = alloc_doubles(it, 'x', g); pf = alloc_doubles(it, 'f', u[:n]); pg = alloc_doubles(it, 'g2', u[n:]); out = alloc_doubles(it, 'out', [F(0), F(0)])
+                    it.call('@h_cubic_state', [px, pf, pg, n, xs[i], out]); return read_doubles(it, out, 2)
+                rs, _ = run(mod, 'cubic_state', bs, parsed, assume=pc)
+                for it2, (val, der) in rs:
+                    Au = sum((Z(c['A'][i][j]) * u[j] for j in range(2 * n)), z3.RealVal(0))
+                    A_ = Algebra(); P = A_.residual(A_.rf(Au), A_.rf(Z(val)))
+                    qA.append((list(it2.pc), [A_.poly_z3(P) != 0]))
+        fr = z3.Real('freeFit')
+        st_, mdl = smt.agg_core(ck, '%s: row i of the fit matrix applied to the state (f, f\'\') is the spline value at x_i, for all x_i in the grid' % label, qA, TO, probe=[fr != u[0]])
+        if st_ == 'sat': found.append(('fit-matrix', label + ': a row of the fit matrix is not the spline value at its abscissa', mdl))
+        st_, mdl = smt.agg_core(ck, '%s: right-hand side = the data, one solver call, its result stored as f and f\'\'' % label, qS, TO, probe=[fr != u[0]])
+        if st_ == 'sat': found.append(('fit-store', label + ': the solver result is not what Fit stores (or b is not the data)', mdl))
+        # constraint rows: natural ends, C1 at interior knots (derivative of the real Calculate on the state, from both sides)
+        if Bref is not None:
+            r = z3.Real('r'); q = []
+            def dstate(k):
+                def bs(it):
+                    px = alloc_doubles(it, 'x', g); pf = alloc_doubles(it, 'f', u[:n]); pg = alloc_doubles(it, 'g2', u[n:]); out = alloc_doubles(it, 'out', [F(0), F(0)])
+                    it.call('@h_cubic_state', [px, pf, pg, n, r, out]); return read_doubles(it, out, 2)
+                rs, _ = run(mod, 'cubic_state', bs, parsed, assume=[r > g[k], r < g[k + 1]])
+                return rs[0][1][1]
+            rows = []
+            Bu = lambda k: sum((Z(Bref[k][j]) * u[j] for j in range(2 * n)), z3.RealVal(0))
+            q.append(([], [z3.Or(Bu(0) != u[n], Bu(n - 1) != u[2 * n - 1])]))
+            for k in range(1, n - 1):
+                jump = z3.substitute(Z(dstate(k - 1)), (r, z3.RealVal(g[k]))) - z3.substitute(Z(dstate(k)), (r, z3.RealVal(g[k])))
+                A_ = Algebra(); P1 = A_.residual(A_.rf(Bu(k)), A_.rf(jump)); P2 = A_.residual(A_.rf(Bu(k)), A_.rf(-jump))
+                q.append(([], [z3.And(A_.poly_z3(P1) != 0, A_.poly_z3(P2) != 0)]))
+            st_, mdl = smt.agg_core(ck, '%s: the constraint rows say f\'\' = 0 at both ends and S\'(x_k - 0) = S\'(x_k + 0) at every interior knot' % label, q, TO, probe=[fr != u[n]])
+            if st_ == 'sat': found.append(('fit-constraints', label + ': the smoothness constraint matrix is not natural ends + C1', mdl))
+    ck.assumptions.append('CubicSpline::Fit: linalg_constrained_qrsolve (Eigen) by contract (returns the constrained least-squares optimum); natural boundaries only; with F1-F3 the optimum is the least-squares natural cubic spline on the grid, which reproduces data that already lie in the spline space whenever that optimum is unique')
+    ck.bounds['fit'] = '%d data points with symbolic abscissae anywhere in the grid (all interval combinations), grids of 3-4 (thorough 5) knots' % ND
 
 # ---------------- Table text reader / writer (point flags survive reading and a write-read round trip) ----------------
 TAB_HARNESS = 'C12_table.cc'
@@ -453,6 +530,16 @@ def native_replay(tag, mdl):
         g = GRIDS[4][1]; y = [num((mdl or {}).get('y%d' % i)) for i in range(4)]; y[3] = y[0]; kind = 'a'
     elif tag == 'cubic-periodic':
         g = GRIDS[5][0]; y = [0.0, 1.0, 0.5, -1.0, 0.0]; kind = 'c'
+    elif tag.startswith('fit-'):
+        # native: sample a natural cubic spline (built by the real Interpolate) on 12 points and fit it on the same grid with the real
+        # Fit and the real constrained solver: a correct assembly returns the generating ordinates
+        src2 = os.path.join(common.workdir(), 'c12fit.cc')
+        open(src2, 'w').write('#include "%s"\n#include <cstdio>\nint main(){ double g[4]={0,0.5,2,3}, y[4]={0,1,0.5,-1}, xs[12], ys[12], out[2], aux[8], f[4], f2[4]; for(int i=0;i<12;i++){ xs[i]=0.125+0.25*i; h_cubic(g,y,4,0,xs[i],out,aux); ys[i]=out[0]; } long rc=h_fit(g,4,xs,ys,12,0,f,f2); printf("%%ld %%.12g %%.12g %%.12g %%.12g\\n",rc,f[0],f[1],f[2],f[3]); }\n' % common.harness_path(HARNESS))
+        b2 = common.native_build([src2], 'C12_fit', extra=['-I' + common.REPO])
+        rc, so, se = common.run_native(b2); t = so.split()
+        got = [float(v) for v in t[1:5]] if len(t) >= 5 else []
+        bad = (not got) or int(t[0]) != 0 or any(abs(a - b_) > 1e-7 for a, b_ in zip(got, [0, 1, 0.5, -1]))
+        return bad, 'native: natural cubic spline through (0,0),(0.5,1),(2,0.5),(3,-1) sampled at 12 points and fitted on the same grid by the real Fit returns ordinates %s' % got
     else: return True, 'model %s (no native replay for this clause)' % str(mdl)[:200]
     b = common.native_build([src], 'C12_rep', extra=['-I' + common.REPO])
     rc, so, se = common.run_native(b, args=[kind] + [repr(float(v)) for v in g] + [repr(v) for v in y])
